@@ -446,15 +446,24 @@ impl<'a> Exec<'a> {
                 _ => None,
             } {
                 let end_last = end | 0xfff;
-                let mut expected: BTreeSet<Path> = BTreeSet::new();
+                // `allowed`: tables that overlap the range (nothing else may be dereferenced);
+                // `required`: tables that lie wholly inside it (their emptiness has to be established by
+                // looking at them). A table that merely sticks into the range may be left alone: the
+                // property permits freeing it when empty and demands it only for tables wholly inside.
+                let mut allowed: BTreeSet<Path> = BTreeSet::new();
+                let mut required: BTreeSet<Path> = BTreeSet::new();
+                allowed.insert(Path::ROOT);
                 if !self.rs.rec_alias {
                     // (with a non-recursive alias the level-4 table itself is reached directly)
-                    expected.insert(Path::ROOT);
+                    required.insert(Path::ROOT);
                 }
                 if start <= end {
                     for p in pre.tables.keys() {
                         if p.len > 0 && !(p.last_va() < start || p.va() > end_last) {
-                            expected.insert(*p);
+                            allowed.insert(*p);
+                            if p.va() >= start && p.last_va() <= end_last {
+                                required.insert(*p);
+                            }
                         }
                     }
                 }
@@ -463,17 +472,20 @@ impl<'a> Exec<'a> {
                 // constructor of a fresh mapper does, a long-lived mapper need not)
                 let only_rec_slot = start <= end && (start >> 39) & 0x1ff == r as u64 && (end >> 39) & 0x1ff == r as u64 && (end - start) >> 39 == 0;
                 if start > end || only_rec_slot {
-                    visited.remove(&Path::ROOT);
-                    expected.remove(&Path::ROOT);
+                    required.remove(&Path::ROOT);
                 }
-                if visited != expected {
-                    let missing: Vec<String> = expected.difference(&visited).map(|p| p.fmt()).collect();
-                    let extra: Vec<String> = visited.difference(&expected).map(|p| p.fmt()).collect();
+                if self.rs.rec_alias {
+                    visited.remove(&Path::ROOT);
+                    allowed.remove(&Path::ROOT);
+                }
+                let missing: Vec<String> = required.difference(&visited).map(|p| p.fmt()).collect();
+                let extra: Vec<String> = visited.difference(&allowed).map(|p| p.fmt()).collect();
+                if !missing.is_empty() || !extra.is_empty() {
                     return Err(viol(
                         &["C20", "C10"],
                         "recursive-address-set",
                         i,
-                        format!("{} [{start:#x}, {end:#x}] with recursive index {r}: tables overlapping the range that were never dereferenced through their recursive address: {missing:?}; dereferenced but not overlapping: {extra:?}", step.opname()),
+                        format!("{} [{start:#x}, {end:#x}] with recursive index {r}: tables wholly inside the range that were never dereferenced through their recursive address: {missing:?}; dereferenced but not overlapping: {extra:?}", step.opname()),
                     ));
                 }
             }
